@@ -626,6 +626,15 @@ func (g *fnGen) execNext(st *state, x *ssa.Next) {
 	if p := g.prov[rng.X]; p != nil {
 		g.guardObligation(st, p, false, x)
 	}
+	// Go randomises map iteration order: a function whose observable result may depend on it
+	// cannot be deterministic. `order-insensitive` in the contract is the (assumed, listed)
+	// argument that the loop body commutes; otherwise the range is an obligation that cannot discharge.
+	if g.ct != nil && g.ct.Flags["order-insensitive"] {
+		g.assumptions["map iteration in "+g.key+" is declared order-insensitive (loop bodies commute)"] = true
+	} else if !g.mapOrderSeen[rng] {
+		g.mapOrderSeen[rng] = true
+		g.oblige(st, "map-order", g.anchor(rng.Pos(), shortTypeKey(rng.X.Type())), rng.Pos(), "", "false", "iteration over a Go map: the order is randomised, so the result may differ from run to run")
+	}
 	dom, val := g.mapDomVal(st, mt, m)
 	ok := g.freshConst("nextok", "Bool")
 	k := g.freshConst("mkey", g.R.sortOf(mt.Key()))
